@@ -116,6 +116,7 @@ package keymap
 //@   ensures @C03 [nothing-kept-once-resolved] !result1 && len(result2) > 0 ==> len(m.prefixed.Action) == 0 && !m.prefixed.Macro
 //@   ensures [no-keys-no-command] len(result2) == 0 ==> len(result0.Action) == 0 && !result0.Macro && !result1
 //@   ensures [reads-something] typed ==> (len(result2) == 0 <==> len(u) == 0)
+//@   ensures @C05 [whole-buffer-prefix-waits] typed && len(u) > 0 && all(j, 1, len(u) + 1, bprefix(binds, u[:j])) ==> result1
 //@   ensures [shorter-were-prefixes] typed ==> all(j, 1, len(result2), bprefix(binds, result2[:j]))
 //@   loop 1 invariant m != nil && m.keys != nil && matched == read && (typed ==> len(m.keys.macroKeys) == 0 && len(read) <= len(u) && read == u[:len(read)] && m.keys.buf == u[len(read):])
 //@   loop 1 invariant typed ==> (len(read) == 0 && !prefix && m.prefixed == old(m.prefixed) && kept == 0) || (len(read) > 0 && prefix && bprefix(binds, read) && 0 <= kept && kept <= len(read) && ((m.prefixed == old(m.prefixed) && kept == 0) || (kept >= 1 && anykey(s, binds, conv(s) == read[:kept] && m.prefixed == binds[s]))))
@@ -153,15 +154,19 @@ package keymap
 //@ func MatchMain
 //@   props C03 C02 C05
 //@   terminates
-//@   requires kmdisp(eng) && (eng.main == "emacs" || eng.main == "emacs-standard" || eng.main == "emacs-meta" || eng.main == "emacs-ctlx")
+//@   requires kmdisp(eng)
 //@   let u = eng.keys.buf
-//@   ensures [prefix-keeps-keys] result2 ==> eng.keys.buf == u && len(u) > 0 && bprefix(maintbl(eng), u)
-//@   ensures [stack-shrinks] len(eng.keys.buf) <= len(u) && eng.keys.buf == u[len(u) - len(eng.keys.buf):]
-//@   ensures [runs-bound-sequence] !result2 && len(result0.Action) > 0 ==> anykey(s, maintbl(eng), conv(s) == u[:len(u) - len(eng.keys.buf)] && result0 == mget(maintbl(eng), s))
-//@   ensures [no-keys-no-command] len(u) == 0 ==> len(result0.Action) == 0 && !result2
-//@   ensures [caller-keys] !result2 && len(result0.Action) > 0 ==> eng.keys.matched == runes(u[:len(u) - len(eng.keys.buf)])
-//@   ensures @C02 [typed-char-resolves] len(u) > 0 && bexact(maintbl(eng), u[:1]) && !bprefix(maintbl(eng), u[:1]) && allkeys(s, maintbl(eng), conv(s) == u[:1] ==> mget(maintbl(eng), s).Action == "self-insert" && !mget(maintbl(eng), s).Macro) ==> !result2 && result0.Action == "self-insert" && eng.keys.buf == u[1:] && eng.keys.matched == runes(u[:1])
-//@   ensures @C02 [utf8-byte-not-dropped] len(u) > 0 && u[0] >= 128 && !bexact(maintbl(eng), u[:1]) && !bprefix(maintbl(eng), u[:1]) ==> result0.Action == "self-insert"
+//@   let typed0 = len(eng.keys.macroKeys) == 0
+//@   let em = eng.main == "emacs" || eng.main == "emacs-standard" || eng.main == "emacs-meta" || eng.main == "emacs-ctlx"
+//@   ensures [prefix-keeps-keys] em ==> (result2 ==> eng.keys.buf == u && len(u) > 0 && bprefix(maintbl(eng), u))
+//@   ensures [stack-shrinks] em ==> (len(eng.keys.buf) <= len(u) && eng.keys.buf == u[len(u) - len(eng.keys.buf):])
+//@   ensures [runs-bound-sequence] em ==> (!result2 && len(result0.Action) > 0 ==> anykey(s, maintbl(eng), conv(s) == u[:len(u) - len(eng.keys.buf)] && result0 == mget(maintbl(eng), s)))
+//@   ensures [no-keys-no-command] em ==> (len(u) == 0 ==> len(result0.Action) == 0 && !result2)
+//@   ensures [caller-keys] em ==> (!result2 && len(result0.Action) > 0 ==> eng.keys.matched == runes(u[:len(u) - len(eng.keys.buf)]))
+//@   ensures @C02 [typed-char-resolves] em ==> (len(u) > 0 && bexact(maintbl(eng), u[:1]) && !bprefix(maintbl(eng), u[:1]) && allkeys(s, maintbl(eng), conv(s) == u[:1] ==> mget(maintbl(eng), s).Action == "self-insert" && !mget(maintbl(eng), s).Macro) ==> !result2 && result0.Action == "self-insert" && eng.keys.buf == u[1:] && eng.keys.matched == runes(u[:1]))
+//@   ensures @C02 [utf8-byte-not-dropped] em ==> (len(u) > 0 && u[0] >= 128 && !bexact(maintbl(eng), u[:1]) && !bprefix(maintbl(eng), u[:1]) ==> result0.Action == "self-insert")
+//@   ensures @C05 [only-a-lone-escape-is-special] typed0 && len(eng.main) > 0 && len(u) >= 2 && all(j, 1, len(u) + 1, bprefix(maintbl(eng), u[:j])) && !eng.nonIncSearch ==> result2 && eng.keys.buf == u
+
 
 //@ spec localtbl(eng *Engine) map[string]inputrc.Bind = mget(eng.config.Binds, eng.local)
 
